@@ -395,6 +395,10 @@ func c07Run(c *Ctx) {
 		c07RunEnum(c, c07Enum[c.Idx])
 		return
 	}
+	if c.Idx%16 == 9 {
+		c07Shared(c)
+		return
+	}
 	var req mon.OpReq
 	var exp Expect
 	ok := false
